@@ -72,20 +72,29 @@ def one_tree(args):
     xml2 = os.path.join(base, 'xml-rev')
     write_xml(tree, xml2, 'reversed')
     o = os.path.join(base, 'out-created-reversed')
-    if gen(root, xml2, o, '5', 'normal') == 'GENERATED':
+    st = gen(root, xml2, o, '5', 'normal')
+    if st == 'GENERATED':
         outs['created-reversed'] = read_tree(o)
+    else:
+        res['problems'].append(f"variant created-reversed: generator did not succeed: {st}")
     res['runs'] += 1
     # second run into the same output directory; run into a directory pre-populated by a different tree
     o = os.path.join(base, 'out-hashseed-0')
-    if gen(root, xml, o, '9', 'shuffle:5') == 'GENERATED':
+    st = gen(root, xml, o, '9', 'shuffle:5')
+    if st == 'GENERATED':
         outs['second-run-same-dir'] = read_tree(o)
+    else:
+        res['problems'].append(f"variant second-run-same-dir: generator did not succeed: {st}")
     res['runs'] += 1
     if other is not None:
         oxml = os.path.join(base, 'xml-other')
         write_xml(other, oxml)
         o = os.path.join(base, 'out-prepopulated')
-        gen(root, oxml, o, '0', 'normal')
-        if gen(root, xml, o, '4', 'reversed') == 'GENERATED':
+        st0 = gen(root, oxml, o, '0', 'normal')
+        st = gen(root, xml, o, '4', 'reversed')
+        if st != 'GENERATED':
+            res['problems'].append(f"variant pre-populated (directory filled by another tree: {st0}): generator did not succeed: {st}")
+        else:
             pre = read_tree(o)
             ref = outs.get('hashseed-0', {})
             outs['pre-populated'] = {k_: v for k_, v in pre.items() if k_ in ref}
@@ -133,8 +142,8 @@ def one_tree(args):
             pr = json.loads(p.stdout.strip().split('\n')[-1])
             for e in pr['errors']:
                 res['problems'].append(f"generated package is not importable: {e}")
-            for m in pr['name_mismatches'][:2]:
-                if 'eolib.protocol._generated' in m.get('defined_in', ''):
+            for m in [m for m in pr['name_mismatches'] if 'eolib.protocol._generated' in m.get('defined_in', '')][:2]:
+                if True:
                     res['problems'].append(f"declared type {m['name']} is not exported as a class from {m.get('looked_up_in', m['defined_in'])}: {m.get('got', m.get('why'))}")
         except Exception:
             res['problems'].append(f"import probe failed: {(p.stderr or p.stdout)[-300:]}")
